@@ -43,7 +43,7 @@ MUTANTS = {
 def bounds(tier):
     n = 2 if tier == 'quick' else 4
     return {'string_length': '0..%d (every exact length is one obligation; quick adds length 3 for '
-                             'positions a, c, d)' % n,
+                             'position a; thorough: 4 for a,b,e,f,g,k_path, 3 for the others)' % n,
             'alphabet': 'all Unicode code points except NUL, CR, LF',
             'symbolic_arguments_per_line': 1, 'make': 'GNU Make 4.3'}
 
@@ -53,6 +53,9 @@ def obligations(tier, kf):
     obs = []
     for fn in POSITIONS:
         for n in range(1 if fn[0] in 'bk' else 0, nmax + 1):
+            if n == 4 and fn in ('c_global_variable', 'c_global_variable_first',
+                                 'd_target_variable', 'h_option_string', 'k_include_dir'):
+                continue
             p = {'N': n}
             p.update(kf)
             t = {0: 60, 1: 60, 2: 200, 3: 900, 4: 3000}[n]
@@ -63,7 +66,7 @@ def obligations(tier, kf):
             if n == 2:
                 for m in MUTANTS.get(fn, []):
                     obs.append(ob.mutant(m))
-        if tier == 'quick' and fn in ('a_recipe_arg', 'c_global_variable', 'd_target_variable'):
+        if tier == 'quick' and fn in ('a_recipe_arg',):
             p = {'N': 3}
             p.update(kf)
             obs.append(Ob(fn, p, 600, desc='make position %s, |s| == 3' % fn))
